@@ -137,6 +137,25 @@ Theorem c04_constants :
 Proof. repeat split; reflexivity. Qed.
 Print Assumptions c04_constants.
 
+(* the registers each unwinder forwards through a CFI frame are the callee-saved registers of the platform calling
+   convention (as sets; register names are the base-256 value of their spelling):
+   x86 ebp ebx edi esi; amd64 rbx rbp r12-r15; arm r4-r10 fp; arm64 x19-x28 fp; mips s0-s7 gp sp fp —
+   and the names a CFI frame adds / a scanned frame carries *)
+Definition same_set (l1 l2 : list Z) : bool := forallb (fun x => memb x l2) l1 && forallb (fun x => memb x l1) l2.
+Theorem c04_callee_saved :
+  same_set (a_callee_saved x86) [6644336; 6644344; 6644841; 6648681] = true /\
+  same_set (a_callee_saved amd64) [7496312; 7496304; 7483698; 7483699; 7483700; 7483701] = true /\
+  same_set (a_callee_saved arm) [29236; 29237; 29238; 29239; 29240; 29241; 7483696; 26224] = true /\
+  same_set (a_callee_saved arm64) [7876921; 7877168; 7877169; 7877170; 7877171; 7877172; 7877173; 7877174; 7877175; 7877176; 26224] = true /\
+  same_set (a_callee_saved mips32) [29488; 29489; 29490; 29491; 29492; 29493; 29494; 29495; 26480; 29552; 26224] = true /\
+  a_callee_saved mips64 = a_callee_saved mips32 /\
+  map (fun a => (a_cfi_sp_name a, a_cfi_ip_name a)) [x86; amd64; arm; arm64; mips32; mips64]
+    = [(6648688, 6646128); (7500656, 7498096); (29552, 28771); (29552, 28771); (29552, 28771); (29552, 28771)] /\
+  map plain_valid [x86; amd64; arm; arm64; mips32; mips64]
+    = [VSome [6646128; 6648688]; VSome [7498096; 7500656]; VSome [7483701; 7483699]; VSome [28771; 29552]; VSome [28771; 29552]; VSome [28771; 29552]].
+Proof. repeat split; reflexivity. Qed.
+Print Assumptions c04_callee_saved.
+
 (* ---- non-vacuity: depth-64 layouts satisfy the preconditions, and the walker does recover them *)
 Definition nv_specs (n : nat) : list frame_spec :=
   map (fun i => {| fs_gap := Z.of_nat (i mod 7); fs_ra := 1073742080 + 16 * Z.of_nat i |}) (seq 0 n).
